@@ -44,6 +44,16 @@ THEOREMS = [P + n for n in (
     'bures_symm_partial', 'bures_self_partial', 'bures_metric_self_partial',
     'whitened_fast_eq_V', 'whitened_corr_fast_eq_V', 'rhoA_coded_eq', 'fast_coded_eq', 'accepts_iff',
     'getV_none_posDef', 'whitened_none_props',
+    # round 3
+    'rank_sum_sq_le', 'rhoA_range', 'rhoA_range_full_holds',
+    'getV_vec_posDef', 'whitened_vec_props',
+    'denseRanks_order', 'sortAndRank_keeps_counts', 'tauA_passes_sorted_counts',
+    'runTies_counts_joint_ties', 'bincountTies_counts_ties', 'tauA_twoPass_eq_spec',
+    'cosine_coded_eq', 'getV_coded_eq', 'cov_route_iff', 'nCond_recovery', 'cka_steps_coded_eq',
+    'whitened_dispatch_eq', 'bures_coded_eq',
+    'sigmaHat_entry', 'riemGram_value', 'negRiem_contract',
+    'bures_symm', 'bures_self', 'bures_cond_perm', 'bures_nonneg',
+    'getV_gram_psd', 'whitened_psd_props',
 )]
 RULE = ('cases come from one PRNG: kind compare (n = 3..7 conditions, stacks of 1..4 RDMs, '
         'small integer / quarter-valued dissimilarities with many ties, negatives, occasional '
@@ -63,7 +73,10 @@ BRANCHES = (['method:' + m for m in METHODS] +
              'fast_path_vs_V', 'input:array1d', 'kind:reject', 'reject:method', 'reject:shape',
              'getv:matrix_get_v', 'bures:second_way',
              'input:rdms_sq', 'dtype:int-int', 'dtype:int-float', 'dtype:float-float', 'dtype:float32',
-             'dtype:bool', 'layout:C', 'layout:F', 'layout:strided'])
+             'dtype:bool', 'layout:C', 'layout:F', 'layout:strided',
+             # round 3
+             'coded_vs_spec', 'kind:passes', 'passes:joint_ties', 'passes:joint_run>=3', 'passes:no_ties',
+             'passes:xtie_only', 'kind:riem', 'riem:sigma_none', 'riem:sigma_mat', 'riem:full_run'])
 ASSUMPTIONS = [
     'IEEE evaluation of either side is within the stated tolerance of the real value '
     '(inputs are small integers / quarters, n <= 7, well-conditioned sigma_k)',
@@ -75,6 +88,11 @@ TRUSTED_EXTRA = [
     'contract: scipy.stats._stats._kendall_dis returns the number of discordant pairs of its sorted input '
     '(checked through tau-a / tau-b agreement with exact pair counts)',
     'contract: scipy.sparse.linalg.cg solves V s = r; np.linalg.eigh diagonalises a symmetric matrix',
+    'contract (tauA_twoPass_eq_spec): _kendall_dis(x, y) = number of discordant pairs when (x, y) are rank '
+    'vectors sorted by x and, among equal x, by y - the precondition is proved (tauA_passes_sorted_counts)',
+    'contract (bures_*): Asq @ Asq = A and eigvalsh = roots of the characteristic polynomial with multiplicity',
+    'contract (negRiem_contract): scipy.optimize.minimize(Nelder-Mead) returns a point not worse than its start; '
+    'scipy.linalg.eigvalsh(A, B) are the generalised eigenvalues (parameters of the model)',
 ]
 
 _cmp = importlib.import_module('rsatoolbox.rdm.compare')
@@ -215,6 +233,17 @@ def _euclid(rng, n):
     return [sum((a - b) ** 2 for a, b in zip(pts[i], pts[j])) for i, j in tri_pairs(n)]
 
 
+def _euclid_full(rng, n):
+    """squared Euclidean distances of n affinely independent integer points (the second-moment
+    matrix relative to condition 0 is positive definite, as `_riemannian_distance` needs)"""
+    base = [rng.randint(-2, 2) for _ in range(n - 1)]
+    pts = [base]
+    for i in range(n - 1):
+        row = [rng.randint(-1, 1) if k < i else (rng.choice([1, 2, 3]) if k == i else 0) for k in range(n - 1)]
+        pts.append([b + r for b, r in zip(base, row)])
+    return [sum((a - b) ** 2 for a, b in zip(pts[i], pts[j])) for i, j in tri_pairs(n)]
+
+
 def _sigma(rng, n, kind):
     if kind == 'none':
         return None
@@ -299,6 +328,31 @@ def _reject_case(rng):
             'form': rng.choice(['array', 'rdms', 'mixed'])}
 
 
+def _passes_case(rng, tier):
+    m = rng.randint(2, 12 if tier == 'quick' else 28)
+    style = rng.choice(['joint', 'joint', 'ties', 'neg', 'quarters', 'distinct', 'xconst'])
+    if style == 'joint':
+        # few distinct (x, y) pairs: long runs of jointly tied entries
+        pool = [(rng.randint(0, 2), rng.randint(0, 2)) for _ in range(rng.randint(1, 3))]
+        pts = [rng.choice(pool) for _ in range(m)]
+        x, y = [p[0] for p in pts], [p[1] for p in pts]
+    elif style == 'xconst':
+        x, y = [rng.choice([0, 1])] * m, _vector(rng, m, 'distinct')
+    else:
+        x, y = _vector(rng, m, style), _vector(rng, m, rng.choice(['ties', 'neg', 'distinct']))
+    return {'kind': 'passes', 'x': x, 'y': y}
+
+
+def _riem_case(rng, tier, full):
+    n = rng.randint(3, 5 if full else 7)
+    gen = _euclid_full if full else _euclid
+    x = [gen(rng, n) for _ in range(rng.choice([1, 2]))]
+    y = [gen(rng, n) for _ in range(rng.choice([1, 2]))]
+    sigma = _sigma(rng, n, rng.choice(['none', 'mat']))
+    return {'kind': 'riem', 'n': n, 'x': x, 'y': y, 'sigma': sigma, 'full': full,
+            'form': rng.choice(['array', 'rdms'])}
+
+
 def generate(rng, tier):
     per_method = 36 if tier == 'quick' else 900
     nmax = 6 if tier == 'quick' else 7
@@ -313,6 +367,10 @@ def generate(rng, tier):
     for _ in range(20 if tier == 'quick' else 400):
         m = rng.randint(1, 21)
         yield {'kind': 'ranks', 'x': _vector(rng, m, rng.choice(['ties', 'neg', 'quarters', 'distinct', 'const']))}
+    for _ in range(60 if tier == 'quick' else 1500):
+        yield _passes_case(rng, tier)
+    for k in range(14 if tier == 'quick' else 200):
+        yield _riem_case(rng, tier, full=(k % 7 == 0))
     if tier == 'thorough':
         # exhaustive: all pairs of 3-condition RDMs with entries in {0,1,2} for the rank / count measures
         vals = list(itertools.product(range(3), repeat=3))
@@ -333,12 +391,94 @@ def search(rng, tier):
 
 # ------------------------------------------------------------------ implementation side
 
+def _impl_passes(case):
+    x = np.array([_fl(v) for v in case['x']], dtype=float)
+    y = np.array([_fl(v) for v in case['y']], dtype=float)
+    from scipy.stats._stats import _kendall_dis
+    np.seterr(all='ignore')
+    v1, v2 = _cmp._sort_and_rank(x, y)
+    out = {'x1': [rat(F(float(a))) for a in v1], 'y1': [int(a) for a in v2]}
+    v2, v1 = _cmp._sort_and_rank(v2, v1)
+    out.update({'x2': [int(a) for a in v1], 'y2': [int(a) for a in v2],
+                'xtie': int(_cmp._count_rank_tie(v1)[0]), 'ytie': int(_cmp._count_rank_tie(v2)[0]),
+                'dis': int(_kendall_dis(v1, v2))})
+    tau = float(_cmp._tau_a(x.copy(), y.copy()))
+    tot = len(case['x']) * (len(case['x']) - 1) // 2
+    out['tau'] = None if math.isnan(tau) else tau
+    # joint ties as the code counted them, recovered from its own result (exact for these sizes)
+    if tot > 0 and not math.isnan(tau) and abs(tau) < 1:
+        cmd = round(tau * tot)
+        out['ntie'] = cmd - tot + out['xtie'] + out['ytie'] + 2 * out['dis']
+    from rsatoolbox.util.rdm_utils import _get_n_from_length, _get_n_from_reduced_vectors
+    out['n_from_len'] = int(_get_n_from_length(len(case['x'])))
+    out['n_from_reduced'] = int(_get_n_from_reduced_vectors(x.reshape(1, -1)))
+    return out
+
+
+def _impl_riem(case):
+    rec = []
+    orig = _cmp._riemannian_distance
+
+    def recorder(vg1, vg2, sig):
+        rec.append((np.array(vg1, dtype=float), np.array(vg2, dtype=float), np.array(sig, dtype=float)))
+        return 0.0 if not case['full'] else orig(vg1, vg2, sig)
+    _cmp._riemannian_distance = recorder
+    try:
+        res = _call(case['x'], case['y'], 'neg_riem_dist', case['sigma'], case['form'])
+    finally:
+        _cmp._riemannian_distance = orig
+    if isinstance(res, dict):
+        return res
+    nx, ny = len(case['x']), len(case['y'])
+    if len(rec) != nx * ny:
+        return {'exc': f'{len(rec)} calls of _riemannian_distance for {nx} x {ny} RDMs'}
+    q = lambda a: rat(F(float(a)))      # noqa: E731
+    out = {'vec_g_x': [[q(a) for a in rec[i * ny][0]] for i in range(nx)],
+           'vec_g_y': [[q(a) for a in rec[j][1]] for j in range(ny)],
+           'sigma_hat': [[q(a) for a in row] for row in rec[0][2]],
+           'same_sigma': all(np.array_equal(r[2], rec[0][2]) for r in rec),
+           'shape': [len(res), len(res[0]) if res else 0]}
+    if case['full']:
+        out['value'] = res
+        # the objective at the start of the search, from the recorded arguments
+        from scipy import linalg
+        from scipy.spatial.distance import squareform
+        n = case['n']
+        start = []
+        for i in range(nx):
+            row = []
+            for j in range(ny):
+                g1, g2, sg = rec[i * ny + j]
+                a = np.diag(g1[:n - 1]) + squareform(g1[n - 1:])
+                b = np.diag(g2[:n - 1]) + squareform(g2[n - 1:])
+                row.append(float(np.sqrt((np.log(linalg.eigvalsh(a + sg, b)) ** 2).sum())))
+            start.append(row)
+        out['start'] = start
+    return out
+
+
+LIB_EXC = (ValueError, TypeError, AssertionError, IndexError, ZeroDivisionError, KeyError,
+           np.linalg.LinAlgError, AttributeError, OverflowError, RuntimeError)
+
+
 def run_impl(case):
+    """exceptions of the library (also of its private helpers called directly) become {'exc': name}"""
+    try:
+        return _run_impl(case)
+    except LIB_EXC as exc:
+        return {'exc': type(exc).__name__}
+
+
+def _run_impl(case):
+    if case['kind'] == 'passes':
+        return _impl_passes(case)
+    if case['kind'] == 'riem':
+        return _impl_riem(case)
     if case['kind'] == 'getv':
         v = _cmp._get_v(case['n'], _sigma_np(case['sigma']))
         out = [[rat(F(float(a))) for a in row] for row in np.asarray(v.todense()).tolist()]
-        if case['sigma'] is None or 'mat' in case['sigma']:
-            # util/matrix.py:get_v, the public twin of _get_v (takes None or a matrix)
+        if True:
+            # util/matrix.py:get_v, the public twin of _get_v (None, a variance vector or a matrix)
             from rsatoolbox.util.matrix import get_v
             v2 = get_v(case['n'], _sigma_np(case['sigma']))
             return {'_get_v': out, 'get_v': [[rat(F(float(a))) for a in row]
@@ -379,7 +519,7 @@ def _sigma_wire(sig, enc):
 
 
 def _req(method, n, x, y, sigma):
-    if method in EXACT:
+    if method.replace('_spec', '') in EXACT:
         return {'op': 'c03.compare', 'method': method, 'n': n, 'exact': True,
                 'x': [[rat(unrat(v)) for v in r] for r in x], 'y': [[rat(unrat(v)) for v in r] for r in y]}
     enc = lambda v: fbits(_fl(v))   # noqa: E731
@@ -388,7 +528,17 @@ def _req(method, n, x, y, sigma):
             'sigma': _sigma_wire(sigma, enc)}
 
 
+SPEC_TWIN = ('cosine', 'corr', 'spearman', 'tau-a', 'rho-a', 'corr_cov', 'cosine_cov', 'bures', 'bures_metric')
+
+
 def model_requests(case):
+    if case['kind'] == 'passes':
+        return [{'op': 'c03.passes', 'x': [rat(unrat(v)) for v in case['x']],
+                 'y': [rat(unrat(v)) for v in case['y']]}]
+    if case['kind'] == 'riem':
+        sg = _sigma_wire(case['sigma'], lambda v: rat(unrat(v)))
+        return [{'op': 'c03.riem', 'n': case['n'], 'x': [rat(unrat(v)) for v in r], 'sigma': sg}
+                for r in case['x'] + case['y']]
     if case['kind'] == 'getv':
         return [{'op': 'c03.getv', 'n': case['n'],
                  'sigma': _sigma_wire(case['sigma'], lambda v: rat(unrat(v)))}]
@@ -403,8 +553,10 @@ def model_requests(case):
         xp = [permute_vec(v, n, perm) for v in case['x']]
         yp = [permute_vec(v, n, perm) for v in case['y']]
         reqs.append(_req(method, n, xp, yp, permute_sigma(case['sigma'], perm)))
-    if method in ('corr_cov', 'cosine_cov') and case['sigma'] is None:
-        reqs.append(_req(method + '_fast', n, case['x'], case['y'], None))
+    if method in SPEC_TWIN:
+        # the same measure through the definitions the theorems speak about (`*_coded_eq`,
+        # `tauA_twoPass_eq_spec`, `whitened_fast_eq_V`): coded path and definition must agree
+        reqs.append(_req(method + '_spec', n, case['x'], case['y'], case['sigma']))
     return reqs
 
 
@@ -417,15 +569,17 @@ def _decode(case, ans):
 
 
 def model_result(case, answers):
-    if case['kind'] in ('getv', 'ranks', 'reject'):
+    if case['kind'] in ('getv', 'ranks', 'reject', 'passes'):
         return answers[0]
+    if case['kind'] == 'riem':
+        return {'x': answers[:len(case['x'])], 'y': answers[len(case['x']):]}
     out = {'base': _decode(case, answers[0])}
     k = 1
     if case['perm'] is not None:
         out['perm'] = _decode(case, answers[k])
         k += 1
-    if case['method'] in ('corr_cov', 'cosine_cov') and case['sigma'] is None:
-        out['fast'] = _decode(case, answers[k])
+    if case['method'] in SPEC_TWIN:
+        out['spec'] = _decode(case, answers[k])
     return out
 
 
@@ -468,6 +622,8 @@ def _diff_matrix(a, b, rtol, atol, undefined_ok):
 def compare(case, impl, model):
     if isinstance(model, dict) and 'model_error' in model:
         return f'model error {model}'
+    if case['kind'] in ('getv', 'ranks', 'passes', 'riem') and isinstance(impl, dict) and set(impl) == {'exc'}:
+        return f"{case['kind']}: the library raised {impl['exc']} on valid input"
     if case['kind'] == 'getv':
         if model['coded'] != model['spec']:
             return 'model: V as coded differs from V as defined'
@@ -476,6 +632,46 @@ def compare(case, impl, model):
             a = [[unrat(v) for v in r] for r in val]
             if a != b:
                 return f'{key} differs from the definition: {val} != {model["spec"]}'
+        return None
+    if case['kind'] == 'passes':
+        if isinstance(impl, dict) and 'exc' in impl:
+            return f'passes: impl raised {impl}'
+        for key in ('x1', 'y1', 'x2', 'y2', 'xtie', 'ytie', 'dis', 'ntie', 'n_from_len', 'n_from_reduced'):
+            if key not in impl:
+                continue
+            a, b = impl[key], model[key]
+            if key == 'x1':
+                a, b = [unrat(v) for v in a], [unrat(v) for v in b]
+            if a != b:
+                return f'_tau_a passes: {key} impl {impl[key]} != model {model[key]}'
+        if unrat(model['tau']) != unrat(model['spec']):
+            return f"model: two-pass tau-a {model['tau']} differs from the definition {model['spec']}"
+        if impl['tau'] is not None and not close(impl['tau'], float(unrat(model['tau'])), 1e-12, 1e-14):
+            return f"_tau_a: impl {impl['tau']!r} != model {model['tau']}"
+        return None
+    if case['kind'] == 'riem':
+        if isinstance(impl, dict) and 'exc' in impl:
+            return f'neg_riem_dist: impl raised {impl}'
+        for side in ('x', 'y'):
+            for k, ans in enumerate(model[side]):
+                if ans['g'] != ans['g_spec']:
+                    return f'model: G as coded differs from the reference-condition Gram matrix ({side}[{k}])'
+                a = [unrat(v) for v in impl['vec_g_' + side][k]]
+                b = [unrat(v) for v in ans['vec_g']]
+                if a != b:
+                    return f'vector @ T.T ({side}[{k}]): impl {impl["vec_g_" + side][k]} != model {ans["vec_g"]}'
+        a = [[unrat(v) for v in r] for r in impl['sigma_hat']]
+        b = [[unrat(v) for v in r] for r in model['x'][0]['sigma_hat']]
+        if a != b or not impl['same_sigma']:
+            return f'sigma_k_hat: impl {impl["sigma_hat"]} != model {model["x"][0]["sigma_hat"]}'
+        if impl['shape'] != [len(case['x']), len(case['y'])]:
+            return f'shape {impl["shape"]}'
+        if case['full']:
+            for i, row in enumerate(impl['value']):
+                for j, v in enumerate(row):
+                    if v is None or v > 1e-12 or v < -impl['start'][i][j] - 1e-9:
+                        return (f'neg_riem_dist[{i}][{j}] = {v!r} outside [-objective(0,0), 0] = '
+                                f'[{-impl["start"][i][j]!r}, 0]')
         return None
     if case['kind'] == 'reject':
         want = 'ok' if model == 'ok' else {'exc': model}
@@ -495,10 +691,11 @@ def compare(case, impl, model):
         d = _diff_matrix(model['perm'], model['base'], max(rtol, 1e-7), max(atol, 1e-7), True)
         if d:
             return f'model not permutation invariant: {d}'
-    if 'fast' in model:
-        d = _diff_matrix(model['fast'], model['base'], 1e-8, 1e-10, True)
+    if 'spec' in model:
+        tight = case['method'] in EXACT
+        d = _diff_matrix(model['base'], model['spec'], 0.0 if tight else 1e-8, 0.0 if tight else 1e-10, True)
         if d:
-            return f'model: linear-CKA fast path differs from the V formula: {d}'
+            return f'model: the coded path differs from the definition it is proved equal to: {d}'
     return None
 
 
@@ -525,6 +722,24 @@ def features(case, impl):
         bad_method = case['method'] not in METHODS
         return {'kind': 'reject', 'form': case['form'],
                 'branches': ['kind:reject', 'reject:method' if bad_method else 'reject:shape']}
+    if case['kind'] == 'passes':
+        pts = list(zip([unrat(v) for v in case['x']], [unrat(v) for v in case['y']]))
+        mult = max((pts.count(p) for p in pts), default=0)
+        br = ['kind:passes']
+        if mult >= 2:
+            br.append('passes:joint_ties')
+        if mult >= 3:
+            br.append('passes:joint_run>=3')
+        if len(set(case['x'])) == len(case['x']) and len(set(case['y'])) == len(case['y']):
+            br.append('passes:no_ties')
+        if mult < 2 and len({p[0] for p in pts}) < len(pts):
+            br.append('passes:xtie_only')
+        return {'kind': 'passes', 'm': len(pts), 'joint_mult': mult, 'branches': br}
+    if case['kind'] == 'riem':
+        br = ['kind:riem', 'riem:sigma_' + ('none' if case['sigma'] is None else 'mat')]
+        if case['full']:
+            br.append('riem:full_run')
+        return {'kind': 'riem', 'n': case['n'], 'full': case['full'], 'branches': br}
     if case['kind'] != 'compare':
         br = ['kind:' + case['kind']]
         if case['kind'] == 'getv' and (case['sigma'] is None or 'mat' in case['sigma']):
@@ -544,6 +759,8 @@ def features(case, impl):
     br.append('layout:' + case.get('layout', 'C'))
     if case['method'].startswith('bures'):
         br.append('bures:second_way')
+    if case['method'] in SPEC_TWIN:
+        br.append('coded_vs_spec')
     if case['method'] in ('corr_cov', 'cosine_cov'):
         br.append('sigma:' + sk)
         if case['sigma'] is None:
@@ -578,6 +795,11 @@ def nontrivial_key(case, impl):
 # ------------------------------------------------------------------ oracle, shrink
 
 def oracle(case):
+    if case['kind'] in ('getv', 'ranks'):
+        r = run_impl(case)
+        if isinstance(r, dict) and set(r) == {'exc'}:
+            return {'what': f"{case['kind']}: the library raises on valid input", 'observed': r,
+                    'expected': 'a value', 'features': {'claim': 'definition'}}
     if case['kind'] == 'getv':
         r = run_impl(case)
         for key in r:
@@ -589,6 +811,19 @@ def oracle(case):
         return orc.check_ranks(case, run_impl(case))
     if case['kind'] == 'reject':
         return orc.check_reject(case, run_impl(case))
+    if case['kind'] == 'passes':
+        # the property for the vectors of this case: tau-a of the pair equals its definition
+        if len(case['x']) < 2:
+            return None
+        c = {'kind': 'compare', 'method': 'tau-a', 'n': None, 'x': [case['x']], 'y': [case['y']],
+             'sigma': None, 'form': 'array', 'perm': None}
+        return orc.check_pair_only(c, lambda x, y: _call(x, y, 'tau-a', None, 'array'))
+    if case['kind'] == 'riem':
+        r = run_impl(case)
+        if isinstance(r, dict) and 'exc' in r:
+            return {'what': 'neg_riem_dist raises on valid input', 'observed': r, 'expected': 'a matrix',
+                    'features': {'claim': 'definition'}}
+        return None
     dt, lay = case_dtypes(case), case.get('layout', 'C')
 
     def call(x, y, method, sigma, form, which=(0, 1)):
